@@ -108,11 +108,17 @@ def pattern_driver(case, api):
         for s in subjects:
             out = api.run(lambda: r.exec(s), wall=60.0, cap=20_000_000)
             maxsteps = max(maxsteps, out["steps"])        # only regex steps are hooked here
+            if maxsteps >= 100000:
+                break
             if out["o"] == "value":
                 obs.append(api_obs(out["pv"]))
             else:
                 obs.append(err_obs(out))
     chans.append(obs)
+    if maxsteps >= 100000:
+        # some exec used up the engine's step budget: the pattern is outside the property's domain ("subjects are short enough
+        # that no budget is exhausted"); the check counts it and does not judge it, so the slow script channels are skipped
+        return {"id": case["id"], "o": [], "ch": [], "steps": maxsteps}
     # channel 2: script level through the RegExp constructor (pattern passed as a value, not lexed)
     chans.append(run_script(api, "var R = new RegExp(P, F);", subjects, src, flags))
     # channel 3: script level through a regex literal
